@@ -465,10 +465,21 @@ class Engine:
                 raise OSError("injected: pointer write failed")
             return orig(path, content)
 
+        redo = None
+        if s.get("reappend") is not None and not self.open_txns:
+            # the failing transaction hands in a DataFile the table already lists (an ingestion re-run, or the usual way to undo a
+            # delete_files): the file is the TABLE's - a rollback must not treat it as its own
+            paths = self._pick_files([s["reappend"]])
+            dfs = [df for df in self.t._get_all_data_files() if paths and norm(df.file_path) == paths[0]]
+            redo = dfs[0] if dfs else None
         st_.write_file = failing
         try:
             try:
-                self.t.append_records(self.rows(1))
+                if redo is not None:
+                    self.labels["failed-commit-of-listed-file"] += 1
+                    self.t.append_data([redo])
+                else:
+                    self.t.append_records(self.rows(1))
                 self.v("ENG", "failed-commit-succeeded", "append returned although the pointer write raised")
             except OSError:
                 pass
@@ -775,6 +786,7 @@ def step_strategy(gc=True, clock_ticks="forward", props_ops=True, open_txn=True)
         (2, st.builds(lambda a, d, e: {"op": "txn", "appends": a, "delete": d, "expire": e},
                       st.lists(st.integers(1, 2), max_size=3), st.lists(st.integers(0, 8), max_size=2), st.one_of(st.none(), CUT))),
         (1, st.just({"op": "failed_commit"})),
+        (1, st.builds(lambda i: {"op": "failed_commit", "reappend": i}, st.integers(0, 8))),
         (1, st.just({"op": "reopen"})),
         (2, st.builds(lambda n: {"op": "racing_append", "n": n}, st.integers(1, 2))),
         (1, st.builds(lambda i: {"op": "reappend_file", "pick": i}, st.integers(0, 8))),
